@@ -457,6 +457,8 @@ def fit_cases(tier):
     for sched in ss:
       for ft in ("step", "epoch"):
         for lazy in (True, False):
+          if tier == "quick" and not lazy and mi != 0:
+            continue     # quick: the pre-built control only for one model
           if ft == "step":
             epochs, spe = 2, 3
           else:
